@@ -202,7 +202,14 @@ def judgeTamper (inp : Json) : List String :=
           let cs := (jarr b "culprits").map fun c => c.getStr?.toOption.getD ""
           if cs == [cheater] then none else some s!"honest signer {hid} names {cs} instead of exactly the deviating signer {cheater}: {jstr b "err"}"
     else []
-  whyResult ++ whyBlame ++ whyClean ++ whyIdent
+  -- C09: a proof-carrying broadcast replayed under another sender's name must be refused in the round it arrives in (the
+  -- proof is bound to its maker): an honest party that ends with an own verdict names that round
+  let ir := jnat inp "impersonated_round"
+  let whyImp :=
+    if ir == 0 then [] else
+      (blame.filter fun (_, b) => (((jstr b "err").splitOn s!"round {ir}:").length ≤ 1)).map fun (who, b) =>
+        s!"honest party {who} accepted in round {ir} a proof made by another party (the replayed broadcast was only refused later: {jstr b "err"})"
+  whyResult ++ whyBlame ++ whyClean ++ whyIdent ++ whyImp
 
 def verdict (why : List String) : Json :=
   if why.isEmpty then jobj [("ok", true)] else jobj [("ok", false), ("why", Json.arr (why.map Json.str).toArray)]
